@@ -524,7 +524,7 @@ func ruleC13(c *Ctx) {
 		c.check(ok, "C13-R3", shortFn(s.Caller), "receiver of "+shortName(s.Callee), c.P.InstrPos(s.Instr), "sp.SigningContext()", "message signed with a context that does not come from sp.SigningContext()")
 	})
 	c.count("C13-R3/signing-calls", m)
-	c.floor("C13-R3/signing-calls", 5)
+	c.floor("C13-R3/signing-calls", 2)
 	isCtor := func(s string) bool {
 		n := shortName(s)
 		return n == "dsig.NewSigningContext" || n == "dsig.NewDefaultSigningContext"
